@@ -332,3 +332,6 @@ def finish(stats, tier):
     if c09.can_mount() and not c.get("equal_inode_numbers_on_two_file_systems"):
         out.append("no tree with equal inode numbers on two file systems")
     return out
+
+
+RULE += ' Since rounds 10-11 also: runs as uid 65534 over files owned by root; three cached runs under a transform that makes files of different lengths identical.'
